@@ -106,7 +106,7 @@ def run_behaviour(item):
         for p, s in files.items():
             with open(os.path.join(root, p), "w") as f:
                 f.write(s)
-        out0, exc0 = runpy.run_entry(root, "n.py")
+        out0, exc0 = pc.run_entry(root, "n.py")
         want0 = [(pc.binding_obj(s["b0"], sig0, k), pc.INTRO_VALUE) for k, s in enumerate(sites)]
         if exc0 or pc.parse_output_lines(out0) != want0:
             return {"machinery": "rendered program does not print the spec's bindings: exc=%s\n%s\n%s" % (
@@ -190,7 +190,7 @@ def judge(res, beh, kind, sig1, sites, info, after, root):
         fails.append("SigStructure")
     detail["sig_got"] = got_sig
     # (3) running prints, at every site, the bindings the spec expects
-    out1, exc1 = runpy.run_entry(root, "n.py")
+    out1, exc1 = pc.run_entry(root, "n.py")
     want1 = [(pc.binding_obj(s["exp"], sig1, k), pc.INTRO_VALUE) for k, s in enumerate(sites)]
     got1 = pc.parse_output_lines(out1)
     if exc1 or got1 != want1:
